@@ -49,7 +49,15 @@ def c06Op (args : List String) : String :=
     -- spec 2: a two-way conditional prints exactly one of its two markers (or fails with an error)
     let twoWay := ["op-var", "op-lit", "op-mixed", "truthy-var", "truthy-lit", "truthy-path", "andor"].contains bucket
     let bad2 := twoWay && !(c.obsTag == "err" || (c.obsTag == "ok" && (c.obsPayload == xstr ['T'] || c.obsPayload == xstr ['F'])))
-    if bucket == "SHADOWPATH" then "specfail " ++ c.kind ++ " law=a-member-of-a-shadowed-outer-value-does-not-count impl=" ++ c.obsTag ++ " " ++ c.obsPayload
+    -- spec 3: the harness's own left-to-right evaluation of a chain with an operand that would raise
+    let wantTok : Option String := if bucket == "short" then ((c.kind.splitOn "want=").getLast?) else none
+    let bad3 := match wantTok with
+      | some "T" => !(c.obsTag == "ok" && c.obsPayload == xstr ['T'])
+      | some "F" => !(c.obsTag == "ok" && c.obsPayload == xstr ['F'])
+      | some "err" => c.obsTag != "err"
+      | _ => false
+    if bad3 then "specfail " ++ c.kind ++ " law=the-first-deciding-operand-decides impl=" ++ c.obsTag ++ " " ++ c.obsPayload
+    else if bucket == "SHADOWPATH" then "specfail " ++ c.kind ++ " law=a-member-of-a-shadowed-outer-value-does-not-count impl=" ++ c.obsTag ++ " " ++ c.obsPayload
     else if bucket == "OPAPI" then "specfail " ++ c.kind ++ " law=operator-agrees-with-the-value-api impl=" ++ c.obsTag ++ " " ++ c.obsPayload
     else if bad1 then "specfail " ++ c.kind ++ " law=expected-branch impl=" ++ c.obsTag ++ " " ++ c.obsPayload
     else if bad2 then "specfail " ++ c.kind ++ " law=exactly-one-branch impl=" ++ c.obsTag ++ " " ++ c.obsPayload
